@@ -311,6 +311,9 @@ func flattenHelpers(pkgs []*packages.Package) (map[string][]byte, []string) {
 	if !inlineMinimal && in.remethodise() {
 		return in.printOverlay(nil)
 	}
+	if !inlineMinimal && in.ungroupFields() {
+		return in.printOverlay(nil)
+	}
 	for obj, fd := range in.decls {
 		if baselineFuncs[obj.FullName()] {
 			continue
@@ -3551,4 +3554,254 @@ func (in *inliner) restoreConcreteFieldTypes() {
 			}
 		}
 	}
+}
+
+// ungroupFields: fields of a reference-tree struct S that were moved, unchanged in name and type, into a new small struct
+// type T held BY VALUE in one new field F of S (`limits bufferLimits`) are moved back: F's declaration is replaced by T's
+// fields, `x.F.g` becomes `x.g`, and `S{F: T{g: v}}` becomes `S{g: v}`. Applied only when F is never used as a whole
+// (copied, passed, compared, addressed, method called on it): then S with T inlined has exactly the same cells as before.
+// Nothing else is rewritten in that round.
+func (in *inliner) ungroupFields() bool {
+	did := false
+	for _, p := range in.pkgs {
+		if !strings.HasPrefix(p.PkgPath, modulePath) || p.Types == nil {
+			continue
+		}
+		info := p.TypesInfo
+		// struct declarations of this package
+		type sdecl struct {
+			ts   *ast.TypeSpec
+			st   *ast.StructType
+			file *ast.File
+		}
+		decls := map[string]sdecl{}
+		for _, f := range p.Syntax {
+			for _, d := range f.Decls {
+				gd, ok := d.(*ast.GenDecl)
+				if !ok || gd.Tok != token.TYPE {
+					continue
+				}
+				for _, sp := range gd.Specs {
+					if ts, ok := sp.(*ast.TypeSpec); ok && ts.TypeParams == nil {
+						if st, ok := ts.Type.(*ast.StructType); ok {
+							decls[ts.Name.Name] = sdecl{ts, st, f}
+						}
+					}
+				}
+			}
+		}
+		inBaseline := func(typeName string) bool {
+			pre := p.PkgPath + "." + typeName + "."
+			for k := range baselineFieldType {
+				if strings.HasPrefix(k, pre) {
+					return true
+				}
+			}
+			return false
+		}
+		for sName, sd := range decls {
+			if !inBaseline(sName) {
+				continue
+			}
+			have := map[string]bool{}
+			for _, fld := range sd.st.Fields.List {
+				for _, nm := range fld.Names {
+					have[nm.Name] = true
+				}
+			}
+			for fi, fld := range sd.st.Fields.List {
+				if len(fld.Names) != 1 || fld.Tag != nil {
+					continue
+				}
+				fName := fld.Names[0].Name
+				if baselineFields[p.PkgPath+"."+sName+"."+fName] {
+					continue
+				}
+				tid, ok := fld.Type.(*ast.Ident)
+				if !ok {
+					continue
+				}
+				td, ok := decls[tid.Name]
+				if !ok || inBaseline(tid.Name) || tid.Name == sName {
+					continue
+				}
+				fv, _ := info.Defs[fld.Names[0]].(*types.Var)
+				tobj, _ := p.Types.Scope().Lookup(tid.Name).(*types.TypeName)
+				if fv == nil || tobj == nil {
+					continue
+				}
+				if nt, ok := tobj.Type().(*types.Named); !ok || nt.NumMethods() > 0 {
+					continue
+				}
+				// every field of T is a field S had, with the same type, and S no longer has it
+				okFields, nFields := true, 0
+				for _, tf := range td.st.Fields.List {
+					if len(tf.Names) == 0 || tf.Tag != nil {
+						okFields = false
+						break
+					}
+					for _, nm := range tf.Names {
+						nFields++
+						tv, _ := info.Defs[nm].(*types.Var)
+						if tv == nil || have[nm.Name] || baselineFieldType[p.PkgPath+"."+sName+"."+nm.Name] != types.TypeString(tv.Type(), nil) {
+							okFields = false
+						}
+					}
+				}
+				if !okFields || nFields == 0 {
+					continue
+				}
+				// every mention of F is `x.F.g` or the key of a keyed T literal in a literal of S (no T value flows into or out
+				// of the field as a whole)
+				var selRewrites []*ast.SelectorExpr // outer x.F.g
+				type litRewrite struct {
+					outer *ast.CompositeLit
+					idx   int
+					inner *ast.CompositeLit
+				}
+				var litRewrites []litRewrite
+				approvedSel := map[*ast.SelectorExpr]bool{}
+				approvedKey := map[*ast.Ident]bool{}
+				for _, f2 := range p.Syntax {
+					ast.Inspect(f2, func(n ast.Node) bool {
+						switch x := n.(type) {
+						case *ast.SelectorExpr:
+							if inner, ok := x.X.(*ast.SelectorExpr); ok {
+								if s, ok := info.Selections[inner]; ok && s.Obj() == types.Object(fv) {
+									if s2, ok := info.Selections[x]; ok && s2.Kind() == types.FieldVal {
+										approvedSel[inner] = true
+										selRewrites = append(selRewrites, x)
+									}
+								}
+							}
+						case *ast.CompositeLit:
+							tv, ok := info.Types[x]
+							if !ok {
+								return true
+							}
+							nt, _ := tv.Type.(*types.Named)
+							if nt == nil {
+								if pt, ok := tv.Type.(*types.Pointer); ok {
+									nt, _ = pt.Elem().(*types.Named)
+								}
+							}
+							if nt == nil || nt.Obj().Pkg() != p.Types || nt.Obj().Name() != sName {
+								return true
+							}
+							for i, e := range x.Elts {
+								kv, ok := e.(*ast.KeyValueExpr)
+								if !ok {
+									continue
+								}
+								id, ok := kv.Key.(*ast.Ident)
+								if !ok || info.Uses[id] != types.Object(fv) {
+									continue
+								}
+								innerLit, ok := kv.Value.(*ast.CompositeLit)
+								if !ok {
+									continue
+								}
+								tyID, ok := innerLit.Type.(*ast.Ident)
+								if !ok || info.Uses[tyID] != types.Object(tobj) {
+									continue
+								}
+								keyed := true
+								for _, ie := range innerLit.Elts {
+									if _, ok := ie.(*ast.KeyValueExpr); !ok {
+										keyed = false
+									}
+								}
+								if !keyed {
+									continue
+								}
+								approvedKey[id] = true
+								litRewrites = append(litRewrites, litRewrite{x, i, innerLit})
+							}
+						}
+						return true
+					})
+				}
+				clean := true
+				for _, f2 := range p.Syntax {
+					ast.Inspect(f2, func(n ast.Node) bool {
+						switch x := n.(type) {
+						case *ast.SelectorExpr:
+							if s, ok := info.Selections[x]; ok && s.Obj() == types.Object(fv) && !approvedSel[x] {
+								clean = false
+							}
+						case *ast.Ident:
+							if info.Uses[x] == types.Object(fv) && !approvedKey[x] {
+								// a selector's Sel ident is also recorded in Uses: those were judged above
+								isSel := false
+								for s := range approvedSel {
+									if s.Sel == x {
+										isSel = true
+									}
+								}
+								if !isSel {
+									clean = false
+								}
+							}
+						}
+						return true
+					})
+				}
+				if !clean {
+					continue
+				}
+				// positional literals of S would change meaning
+				positional := false
+				for _, f2 := range p.Syntax {
+					ast.Inspect(f2, func(n ast.Node) bool {
+						if x, ok := n.(*ast.CompositeLit); ok && len(x.Elts) > 0 {
+							if _, isKV := x.Elts[0].(*ast.KeyValueExpr); !isKV {
+								if tv, ok := info.Types[x]; ok {
+									if nt, ok := tv.Type.(*types.Named); ok && nt.Obj().Pkg() == p.Types && nt.Obj().Name() == sName {
+										positional = true
+									}
+								}
+							}
+						}
+						return true
+					})
+				}
+				if positional {
+					continue
+				}
+				// rewrite
+				var newFields []*ast.Field
+				newFields = append(newFields, sd.st.Fields.List[:fi]...)
+				for _, tf := range td.st.Fields.List {
+					nf := &ast.Field{Type: tf.Type}
+					for _, nm := range tf.Names {
+						nf.Names = append(nf.Names, ast.NewIdent(nm.Name))
+					}
+					newFields = append(newFields, nf)
+				}
+				newFields = append(newFields, sd.st.Fields.List[fi+1:]...)
+				sd.st.Fields.List = newFields
+				in.changed[in.fset.Position(sd.file.Pos()).Filename] = sd.file
+				for _, x := range selRewrites {
+					inner := x.X.(*ast.SelectorExpr)
+					x.X = inner.X
+				}
+				// literals: splice from the highest index down so that earlier indexes stay valid
+				sort.Slice(litRewrites, func(i, j int) bool { return litRewrites[i].idx > litRewrites[j].idx })
+				for _, lr := range litRewrites {
+					elts := append([]ast.Expr{}, lr.outer.Elts[:lr.idx]...)
+					elts = append(elts, lr.inner.Elts...)
+					elts = append(elts, lr.outer.Elts[lr.idx+1:]...)
+					lr.outer.Elts = elts
+				}
+				for _, f2 := range p.Syntax {
+					in.changed[in.fset.Position(f2.Pos()).Filename] = f2
+				}
+				in.n++
+				in.inlined["(fields ungrouped) "+sName+"."+fName+" "+tid.Name]++
+				did = true
+				break // one field per struct per round: the declaration list changed
+			}
+		}
+	}
+	return did
 }
